@@ -118,30 +118,46 @@ def _guard(fn):
         return {'error': err_kind(ex), 'msg': str(ex)[:200]}
 
 
-def run_hht(F, A, e, mode, do_1d=True):
-    """Call the three public entry points on one input; JSON-able result."""
+HHT_ORDERS = list(itertools.permutations(('dense', 'sparse', 'oned')))
+
+
+def changed(now, pristine):
+    """True when an array handed to the implementation no longer holds the values it was given."""
+    return now.shape != pristine.shape or not np.array_equal(now, pristine, equal_nan=True)
+
+
+def run_hht(F, A, e, mode, do_1d=True, seq=0):
+    """Call the three public entry points one after the other ON THE SAME ARRAY OBJECTS (as an analysis script
+    does: "the dense spectrum, its sparse form and the one-dimensional marginal spectrum" of one data set), in the
+    order `HHT_ORDERS[seq % 6]`, followed by a second dense and a second sparse call; after every call the arrays
+    are compared with a pristine copy. JSON-able result."""
     from emd import spectra
-    F = arr(F)
-    A = arr(A)
-    e = np.asarray(e, dtype=float)
+    F0, A0, e0 = arr(F), arr(A), np.asarray(e, dtype=float)      # pristine: never handed to the implementation
+    Fw, Aw, ew = F0.copy(), A0.copy(), e0.copy()                 # the caller's arrays: every call receives these
 
     def dense():
-        d = spectra.hilberthuang(F.copy(), A.copy(), e.copy(), mode=mode)
+        d = spectra.hilberthuang(Fw, Aw, ew, mode=mode)
         return {'shape': list(d.shape), 'v': np.asarray(d, dtype=float).ravel().tolist()}
 
     def sparse():
-        s = spectra.hilberthuang(F.copy(), A.copy(), e.copy(), mode=mode, return_sparse=True)
+        s = spectra.hilberthuang(Fw, Aw, ew, mode=mode, return_sparse=True)
         return {'shape': list(s.shape), 'data': np.asarray(s.data, dtype=float).tolist(),
                 'row': [int(v) for v in s.row], 'col': [int(v) for v in s.col],
                 'toarray': np.asarray(s.toarray(), dtype=float).ravel().tolist()}
 
     def oned():
-        d = spectra.hilberthuang_1d(F.copy(), A.copy(), e.copy(), mode=mode)
+        d = spectra.hilberthuang_1d(Fw, Aw, ew, mode=mode)
         return {'shape': list(d.shape), 'v': np.asarray(d, dtype=float).ravel().tolist()}
 
-    out = {'dense': _guard(dense), 'sparse': _guard(sparse)}
-    if do_1d:
-        out['oned'] = _guard(oned)
+    fns = {'dense': dense, 'sparse': sparse, 'oned': oned}
+    order = [nm for nm in HHT_ORDERS[seq % len(HHT_ORDERS)] if do_1d or nm != 'oned']
+    calls = [(nm, nm) for nm in order] + [('dense_again', 'dense'), ('sparse_again', 'sparse')]
+    out = {'order': [lab for lab, _ in calls], 'modified': {}}
+    for lab, nm in calls:
+        out[lab] = _guard(fns[nm])
+        for arg, now, pristine in (('infr', Fw, F0), ('inam', Aw, A0), ('freq_edges', ew, e0)):
+            if arg not in out['modified'] and changed(now, pristine):
+                out['modified'][arg] = lab
     return out
 
 
@@ -183,6 +199,11 @@ def hht_compare(out, results, do_1d=True):
         model_trip = sorted(zip([int(v) for v in r.vecs[1]], [int(v) for v in r.vecs[2]], list(r.vecs[3] or [])))
         if impl_trip != model_trip:
             return 'sparse triplets differ: impl rows %s cols %s data %s; model %s' % (s['row'][:12], s['col'][:12], s['data'][:12], r.raw[:240])
+        for lab, key in (('dense_again', 'v'), ('sparse_again', 'toarray')):
+            o = out.get(lab)
+            if o is not None and ('error' in o or o['shape'] != [nb, T] or not _same(o[key], r.vecs[0])):
+                return '%s (call order %s) differs from the model: impl %s model %s' % (
+                    lab, out.get('order'), o.get('error') or o[key][:24], r.raw[:200])
     else:
         return 'model answered %s' % r.raw[:100]
     if do_1d:
@@ -229,6 +250,14 @@ def edges_assumption(e, what='edges'):
     return []
 
 
+def modified_failures(out):
+    """The spectra are the spectra OF THE CALLER'S DATA: a call that changes an array it was handed makes every later
+    spectrum of "the same" data a spectrum of different data (the caller cannot see that)."""
+    return [Failure('input-modified:' + arg, "the caller's %s array no longer holds its values after the %s call "
+                    '(calls made on the same array objects, in this order: %s)' % (arg, lab, out.get('order')))
+            for arg, lab in sorted((out.get('modified') or {}).items())]
+
+
 def hht_holds(F, A, e, mode, out, do_1d=True):
     F = arr(F)
     A = arr(A)
@@ -239,12 +268,13 @@ def hht_holds(F, A, e, mode, out, do_1d=True):
     e = [float(v) for v in e]
     T, M = F.shape
     nb = len(e) - 1
-    fs = []
+    fs = modified_failures(out)
     d, s = out['dense'], out['sparse']
-    for nm, o in (('dense', d), ('sparse', s)) + ((('1d', out['oned']),) if do_1d else ()):
+    again = [(lab, out[lab]) for lab in ('dense_again', 'sparse_again') if lab in out]
+    for nm, o in (('dense', d), ('sparse', s)) + ((('1d', out['oned']),) if do_1d else ()) + tuple(again):
         if 'error' in o:
             fs.append(Failure('raises:%s:%s' % (nm, o['error']), o.get('msg', '')))
-    if fs:
+    if any(f.kind.startswith('raises:') for f in fs):
         return fs
     fs += edges_assumption(e)
     exp_d, exp_1, total = brute_hht(F, A, e, mode)
@@ -290,6 +320,14 @@ def hht_holds(F, A, e, mode, out, do_1d=True):
             fs.append(Failure('sparse-total-ne-inrange-total', 'sum(data)=%r in-range total=%r' % (sum(s['data']), total)))
     if sum(d['v']) != total:
         fs.append(Failure('dense-total-ne-inrange-total', 'sum(dense)=%r in-range total=%r' % (sum(d['v']), total)))
+    # the same routine called again on the same arrays: still the spectrum of the same data
+    for lab, o in again:
+        got = o['v'] if lab == 'dense_again' else o['toarray']
+        if o['shape'] != [nb, T] or got != flat_d:
+            fs.append(Failure('%s-ne-bruteforce' % lab.replace('_again', '-repeat'),
+                              'calls on the same arrays in the order %s, freqs %s amps %s edges %s mode %s: the repeated call gives %s '
+                              '(total %r), the per-sample histogram of the data is %s (total %r)' % (
+                                  out.get('order'), F.tolist()[:8], A.tolist()[:8], e, mode, got[:20], sum(got), flat_d[:20], total)))
     if do_1d:
         o = out['oned']
         flat_1 = [v for row in exp_1 for v in row]
@@ -319,34 +357,100 @@ def hht_tags(F, e, mode):
 # C11
 
 SQUASH = (('none', False), ('sum', 'sum'), ('mean', 'mean'))
+SQ = dict(SQUASH)
+HOLO_ORDERS = list(itertools.permutations(('none', 'sum', 'mean')))
+PACK_LIMIT = 4096        # outputs with more cells are carried as (indices, values) of their non-zero cells
 
 
-def run_holo(F1, F2, A2, e1, e2, mode):
+def pack(h):
+    a = np.asarray(h, dtype=float)
+    flat = a.ravel()
+    o = {'shape': list(a.shape), 'type': type(h).__name__}
+    if flat.size <= PACK_LIMIT:
+        o['v'] = flat.tolist()
+    else:
+        nz = np.flatnonzero(flat != 0)          # (NaN != 0: kept)
+        o['nz'] = [int(i) for i in nz]
+        o['nzv'] = flat[nz].tolist()
+    return o
+
+
+def vals(o):
+    """flat float array of a packed output"""
+    if 'v' in o:
+        return np.array(o['v'], dtype=float)
+    a = np.zeros(int(np.prod(o['shape'])))
+    a[np.array(o['nz'], dtype=int)] = o['nzv']
+    return a
+
+
+def other_mode(mode):
+    return 'amplitude' if mode == 'energy' else 'energy'
+
+
+def run_holo(F1, F2, A2, e1, e2, mode, seq=0):
+    """All calls are made ON THE SAME ARRAY OBJECTS, one after the other: the three squash_time settings in the order
+    HOLO_ORDERS[seq % 6] in the case's mode, one call in the other mode, and the first setting once more in the case's
+    mode; after every call the arrays are compared with a pristine copy."""
     from emd import spectra
-    F1, F2, A2 = arr(F1), arr(F2), arr(A2)
-    e1 = np.asarray(e1, dtype=float)
-    e2 = np.asarray(e2, dtype=float)
-    out = {}
-    for nm, sq in SQUASH:
-        def go(sq=sq):
-            h = spectra.holospectrum(F1.copy(), F2.copy(), A2.copy(), e1.copy(), e2.copy(), mode=mode, squash_time=sq)
-            return {'shape': list(np.shape(h)), 'v': np.asarray(h, dtype=float).ravel().tolist(),
-                    'type': type(h).__name__}
-        out[nm] = _guard(go)
+    P = [arr(F1), arr(F2), arr(A2), np.asarray(e1, dtype=float), np.asarray(e2, dtype=float)]   # pristine
+    W = [x.copy() for x in P]                                                                 # the caller's arrays
+    names = ('infr', 'infr2', 'inam2', 'freq_edges', 'freq_edges2')
+    order = HOLO_ORDERS[seq % len(HOLO_ORDERS)]
+    calls = [(nm, mode, nm) for nm in order] + [('other', other_mode(mode), order[1]), ('again', mode, order[0])]
+    out = {'order': ['%s:%s/%s' % c for c in calls], 'modified': {}}
+    for lab, md, sq in calls:
+        def go(md=md, sq=sq):
+            h = spectra.holospectrum(W[0], W[1], W[2], W[3], W[4], mode=md, squash_time=SQ[sq])
+            return dict(pack(h), squash=sq, mode=md)
+        out[lab] = _guard(go)
+        for arg, now, pristine in zip(names, W, P):
+            if arg not in out['modified'] and changed(now, pristine):
+                out['modified'][arg] = '%s:%s/%s' % (lab, md, sq)
     return out
 
 
-def holo_ops(F1, F2, A2, e1, e2, mode):
+def _holo_vecs(F1, F2, A2, e1, e2):
     f1v, f1m, s1 = nan_split(F1)
     f2v, f2m, s2 = nan_split(F2)
     A = arr(A2)
-    vecs = [list(map(float, e1)), list(map(float, e2)), s1, s2, list(A.shape), f1v, f1m, f2v, f2m, A.ravel().tolist()]
+    return [list(map(float, e1)), list(map(float, e2)), s1, s2, list(A.shape), f1v, f1m, f2v, f2m, A.ravel().tolist()]
+
+
+def holo_ops(F1, F2, A2, e1, e2, mode):
+    vecs = _holo_vecs(F1, F2, A2, e1, e2)
     return [proto.op('HOLO', {'mode': mode, 'squash': nm}, vecs) for nm, _ in SQUASH]
 
 
+def holo_coo_op(F1, F2, A2, e1, e2, mode):
+    """the model's sparse entries (compact: one (time, folded column, weight) per sample)"""
+    return proto.op('HOLOCOO', {'mode': mode, 'squash': 'none'}, _holo_vecs(F1, F2, A2, e1, e2))
+
+
+def _cmp_one(nm, o, shp, mv, scale):
+    """one implementation output against the model's values `mv` (Fractions) for squash setting nm"""
+    if o['shape'] != shp:
+        return 'shape impl %s model %s' % (o['shape'], shp)
+    iv = vals(o).tolist()
+    if len(mv) != len(iv):
+        return '%d values vs %d' % (len(iv), len(mv))
+    if nm == 'mean':
+        # scipy forms sum(x * (1/T)): not exact unless T is a power of two -> rule 1 tolerance
+        tol = 1e-9 * max(1.0, scale)
+        bad = [i for i, (a, b) in enumerate(zip(iv, mv)) if not abs(proto.fr(a) - b) <= tol]
+    else:
+        bad = [i for i, (a, b) in enumerate(zip(iv, mv)) if not (a == a and proto.fr(a) == b)]
+    if bad:
+        i = bad[0]
+        return 'cell %d impl %r model %s' % (i, iv[i], mv[i])
+    return None
+
+
 def holo_compare(out, results, T, scale):
+    by_sq = {}
     for (nm, _), r in zip(SQUASH, results):
         o = out[nm]
+        by_sq[nm] = r
         if r.status == 'err':
             if o.get('error') != r.words[0]:
                 return 'squash=%s: model err %s; implementation %s' % (nm, r.words[0], o.get('error', 'returned a value'))
@@ -358,20 +462,109 @@ def holo_compare(out, results, T, scale):
         shp = [int(r.args['na']), int(r.args['nc'])]
         if nm == 'none':
             shp = [int(r.args['T'])] + shp
-        if o['shape'] != shp:
-            return 'squash=%s: shape impl %s model %s' % (nm, o['shape'], shp)
-        mv = r.vecs[0] or []
-        if len(mv) != len(o['v']):
-            return 'squash=%s: %d values vs %d' % (nm, len(o['v']), len(mv))
-        if nm == 'mean':
-            # scipy forms sum(x * (1/T)): not exact unless T is a power of two -> rule 1 tolerance
-            tol = 1e-9 * max(1.0, scale)
-            bad = [i for i, (a, b) in enumerate(zip(o['v'], mv)) if abs(proto.fr(a) - b) > tol]
+        d = _cmp_one(nm, o, shp, r.vecs[0] or [], scale)
+        if d:
+            return 'squash=%s: %s' % (nm, d)
+    # the same setting called again on the same arrays (after a call in the other mode)
+    o = out.get('again')
+    if o is not None:
+        nm = o.get('squash') or out['order'][0].split('/')[-1]
+        r = by_sq[nm]
+        if r.status == 'err':
+            if o.get('error') != r.words[0]:
+                return 'repeated squash=%s: model err %s; implementation %s' % (nm, r.words[0], o.get('error', 'returned a value'))
+        elif 'error' in o:
+            return 'repeated squash=%s (calls %s): implementation raised %s' % (nm, out['order'], o['error'])
         else:
-            bad = [i for i, (a, b) in enumerate(zip(o['v'], mv)) if proto.fr(a) != b]
-        if bad:
-            i = bad[0]
-            return 'squash=%s: cell %d impl %r model %s' % (nm, i, o['v'][i], mv[i])
+            shp = [int(r.args['na']), int(r.args['nc'])]
+            if nm == 'none':
+                shp = [int(r.args['T'])] + shp
+            d = _cmp_one(nm, o, shp, r.vecs[0] or [], scale)
+            if d:
+                return 'repeated squash=%s (calls on the same arrays: %s): %s' % (nm, out['order'], d)
+    return None
+
+
+def coo_reading(r):
+    """The model's outputs read off its sparse entries: by Spectra.holo3d_eq cell [t][a][c] of the full output is the
+    sum of the entries with row t and column (c+1) + (a+1)(L1+1) (C11.unfold_fold: the column determines (a, c));
+    C11.holo_sum_eq / holo_mean_eq: the squashed outputs are its time sum / time mean.
+    Returns (T, na, nc, {(t,a,c): Fraction}, {(a,c): Fraction})."""
+    T, na, nc, L1 = (int(r.args[k]) for k in ('T', 'na', 'nc', 'L1'))
+    full, sm = {}, {}
+    for t, col, v in zip(r.vecs[0] or [], r.vecs[1] or [], r.vecs[2] or []):
+        d2, d1 = divmod(int(col), L1 + 1)
+        a, c = d2 - 1, d1 - 1
+        if 0 <= a < na and 0 <= c < nc:
+            full[(int(t), a, c)] = full.get((int(t), a, c), 0) + v
+            sm[(a, c)] = sm.get((a, c), 0) + v
+    return T, na, nc, full, sm
+
+
+def holo_coo_vs_model(rc, results):
+    """harness self-check on small cases: the reading of the sparse entries equals the model's own unfolded outputs"""
+    if not rc.ok:
+        if all(r.status == rc.status and r.words[:1] == rc.words[:1] for r in results):
+            return None
+        return 'HOLOCOO answered %s, HOLO answered %s' % (rc.raw[:80], [r.raw[:40] for r in results])
+    if not (results[0].ok and results[1].ok and (results[2].ok or (int(rc.args['T']) == 0 and results[2].status == 'err'))):
+        return 'HOLOCOO answered %s, HOLO answered %s' % (rc.raw[:80], [r.raw[:40] for r in results])
+    T, na, nc, full, sm = coo_reading(rc)
+    exp = [[Fraction(0)] * (na * nc) for _ in range(T)]
+    for (t, a, c), v in full.items():
+        exp[t][a * nc + c] = v
+    if [v for row in exp for v in row] != list(results[0].vecs[0] or []):
+        return 'sparse entries of the model read as a full array differ from the model full array: %s' % rc.raw[:200]
+    es = [Fraction(0)] * (na * nc)
+    for (a, c), v in sm.items():
+        es[a * nc + c] = v
+    if es != list(results[1].vecs[0] or []) or (results[2].ok and [v / T for v in es] != list(results[2].vecs[0] or [])):
+        return 'sparse entries of the model read as time sum / mean differ from the model outputs: %s' % rc.raw[:200]
+    return None
+
+
+def holo_compare_coo(out, rc, scale):
+    """correspondence through the sparse form (large bin sets: the unfolded model output would have ~10^5 cells)"""
+    labs = [nm for nm, _ in SQUASH] + (['again'] if 'again' in out else [])
+    if rc.status == 'err':
+        for nm in labs:
+            if out[nm].get('error') != rc.words[0]:
+                return 'squash=%s: model err %s; implementation %s' % (nm, rc.words[0], out[nm].get('error', 'returned a value'))
+        return None
+    if not rc.ok:
+        return 'model answered %s' % rc.raw[:100]
+    T, na, nc, full, sm = coo_reading(rc)
+
+    def dense(cells, shp):
+        a = np.zeros(shp)
+        for k, v in cells.items():
+            if Fraction(float(v)) != v:
+                return None
+            a[k] = float(v)
+        return a
+    exp = {'none': dense(full, (T, na, nc)), 'sum': dense(sm, (na, nc))}
+    if exp['none'] is None or exp['sum'] is None:
+        return 'skip:model weight not a float'
+    for lab in labs:
+        o = out[lab]
+        nm = o.get('squash', lab)
+        if 'error' in o:
+            if nm == 'mean' and T == 0 and o['error'] == 'ZeroDivisionError':
+                continue
+            return '%s squash=%s: model returns a spectrum; implementation raised %s (%s)' % (lab, nm, o['error'], o.get('msg'))
+        shp = [T, na, nc] if nm == 'none' else [na, nc]
+        if o['shape'] != shp:
+            return '%s squash=%s: shape impl %s model %s' % (lab, nm, o['shape'], shp)
+        got = vals(o).reshape(shp)
+        if nm == 'mean':
+            bad = np.argwhere(~(np.abs(got - exp['sum'] / T) <= 1e-9 * max(1.0, scale)))
+        else:
+            bad = np.argwhere(~(got == exp[nm]))
+        if len(bad):
+            k = tuple(bad[0].tolist())
+            want = (exp['sum'] / T)[k] if nm == 'mean' else exp[nm][k]
+            return '%s squash=%s (calls on the same arrays: %s): cell %s impl %r model %r; model sparse entries %s' % (
+                lab, nm, out.get('order'), list(k), float(got[k]), float(want), rc.raw[:200])
     return None
 
 
@@ -390,17 +583,44 @@ def brute_holo(F1, F2, A2, e1, e2, mode):
     return full
 
 
+def _squashed_ne(o, nm, exp_full, T, scale):
+    """does output `o` for squash setting nm differ from the per-sample histogram `exp_full` [T x na x nc]? (str | None)"""
+    shp = list(exp_full.shape) if nm == 'none' else list(exp_full.shape[1:])
+    if o['shape'] != shp:
+        return 'shape %s, expected %s' % (o['shape'], shp)
+    got = vals(o).reshape(shp)
+    if nm == 'mean':
+        if T == 0:
+            return None
+        exact = [Fraction(v) / T for v in map(proto.fr, exp_full.sum(axis=0).ravel().tolist())] if got.size <= PACK_LIMIT else None
+        if exact is not None:
+            bad = [i for i, (a, b) in enumerate(zip(got.ravel().tolist(), exact))
+                   if not abs(proto.fr(a) - b) <= Fraction(1, 10 ** 9) * Fraction(scale)]
+            bad = [[int(x) for x in np.unravel_index(i, shp)] for i in bad[:1]]
+        else:
+            bad = np.argwhere(~(np.abs(got - exp_full.sum(axis=0) / T) <= 1e-9 * scale)).tolist()
+        want = exp_full.sum(axis=0) / T
+    else:
+        want = exp_full if nm == 'none' else exp_full.sum(axis=0)
+        bad = np.argwhere(~(got == want)).tolist()
+    if len(bad):
+        k = tuple(bad[0])
+        return 'first differing cell %s got %r expected %r (%d cells differ)' % (list(k), float(got[k]), float(want[k]), len(bad))
+    return None
+
+
 def holo_holds(F1, F2, A2, e1, e2, mode, out):
     F1, F2, A2 = arr(F1), arr(F2), arr(A2)
     if F1.ndim == 1:
         F1 = F1[:, None]
     e1 = [float(v) for v in e1]
     e2 = [float(v) for v in e2]
-    fs = []
-    for nm, _ in SQUASH:
+    fs = modified_failures(out)
+    extra = [lab for lab in ('other', 'again') if lab in out]
+    for nm in [nm for nm, _ in SQUASH] + extra:
         if 'error' in out[nm]:
             fs.append(Failure('raises:%s:%s' % (nm, out[nm]['error']), out[nm].get('msg', '')))
-    if fs:
+    if any(f.kind.startswith('raises:') for f in fs):
         return fs
     T = F1.shape[0]
     na, nc = len(e2) - 1, len(e1) - 1
@@ -408,23 +628,52 @@ def holo_holds(F1, F2, A2, e1, e2, mode, out):
     exp = brute_holo(F1, F2, A2, e1, e2, mode)
     full, sm, mn = out['none'], out['sum'], out['mean']
     scale = max(1.0, float(np.max(np.abs(A2))) ** (2 if mode == 'energy' else 1) if A2.size else 1.0)
+    shape_ok = True
     if full['shape'] != [T, na, nc]:
+        shape_ok = False
         fs.append(Failure('holo-shape:full', 'got %s expected [time=%d, AM bins=%d, carrier bins=%d]' % (full['shape'], T, na, nc)))
-    elif full['v'] != exp.ravel().tolist():
-        got = np.array(full['v']).reshape(T, na, nc)
-        idx = np.argwhere(got != exp)[0].tolist()
-        only_out = (exp == 0).all() or bool((got.sum() != exp.sum()))
-        fs.append(Failure('holo-full-ne-bruteforce' + (':total-differs' if only_out else ':same-total-wrong-cell'),
-                          'first differing cell [t,am,carrier]=%s got %r expected %r' % (idx, got[tuple(idx)], exp[tuple(idx)])))
+    else:
+        got = vals(full).reshape(T, na, nc)
+        if not np.array_equal(got, exp):
+            idx = np.argwhere(~(got == exp))[0].tolist()
+            only_out = (exp == 0).all() or bool((got.sum() != exp.sum()))
+            fs.append(Failure('holo-full-ne-bruteforce' + (':total-differs' if only_out else ':same-total-wrong-cell'),
+                              'first differing cell [t,am,carrier]=%s got %r expected %r' % (idx, float(got[tuple(idx)]), float(exp[tuple(idx)]))))
     for nm, o in (('sum', sm), ('mean', mn)):
         if o['shape'] != [na, nc]:
+            shape_ok = False
             fs.append(Failure('holo-shape:' + nm, 'got %s expected [%d, %d]' % (o['shape'], na, nc)))
-    if not fs:
-        got = np.array(full['v']).reshape(T, na, nc)
-        if sm['v'] != got.sum(axis=0).ravel().tolist():
-            fs.append(Failure('holo-sum-ne-time-sum-of-full', 'sum output %s; full.sum(0) %s' % (sm['v'][:16], got.sum(axis=0).ravel().tolist()[:16])))
-        if T > 0:
-            exact = [Fraction(v) / T for v in map(proto.fr, got.sum(axis=0).ravel().tolist())]
-            if any(abs(proto.fr(a) - b) > Fraction(1, 10 ** 9) * Fraction(scale) for a, b in zip(mn['v'], exact)):
-                fs.append(Failure('holo-mean-ne-time-mean-of-full', 'mean output %s; full.mean(0) %s' % (mn['v'][:16], got.mean(axis=0).ravel().tolist()[:16])))
+    if shape_ok:
+        # "the time-summed and time-averaged outputs equal the sum and mean over time of the full output"
+        # (each the result of its own call on the same arrays)
+        got = vals(full).reshape(T, na, nc)
+        d = _squashed_ne(sm, 'sum', got, T, scale)
+        if d:
+            fs.append(Failure('holo-sum-ne-time-sum-of-full', 'calls %s: %s; sum output %s; full.sum(0) %s' % (
+                out.get('order'), d, vals(sm)[:16].tolist(), got.sum(axis=0).ravel().tolist()[:16])))
+        d = _squashed_ne(mn, 'mean', got, T, scale)
+        if d:
+            fs.append(Failure('holo-mean-ne-time-mean-of-full', 'calls %s: %s; mean output %s; full.mean(0) %s' % (
+                out.get('order'), d, vals(mn)[:16].tolist(), got.mean(axis=0).ravel().tolist()[:16])))
+        # each squashed output against the per-sample histogram of the data itself
+        for nm, o in (('sum', sm), ('mean', mn)):
+            d = _squashed_ne(o, nm, exp, T, scale)
+            if d:
+                fs.append(Failure('holo-%s-ne-bruteforce' % nm, 'calls %s: %s' % (out.get('order'), d)))
+        # the remaining calls of the sequence on the same arrays: the other mode, and the first setting again
+        if 'other' in out:
+            o = out['other']
+            md, nm = o.get('mode', other_mode(mode)), o.get('squash', 'sum')
+            sc2 = max(1.0, float(np.max(np.abs(A2))) ** (2 if md == 'energy' else 1) if A2.size else 1.0)
+            d = _squashed_ne(o, nm, brute_holo(F1, F2, A2, e1, e2, md), T, sc2)
+            if d:
+                fs.append(Failure('holo-other-mode-ne-bruteforce', 'calls on the same arrays %s: the mode=%s squash_time=%s call: %s' % (
+                    out.get('order'), md, nm, d)))
+        if 'again' in out:
+            o = out['again']
+            nm = o.get('squash', 'none')
+            d = _squashed_ne(o, nm, exp, T, scale)
+            if d:
+                fs.append(Failure('holo-repeat-ne-bruteforce', 'calls on the same arrays %s: the repeated mode=%s squash_time=%s call: %s' % (
+                    out.get('order'), mode, nm, d)))
     return fs
